@@ -511,3 +511,24 @@ package packet
 // verified. Callers under contract treat it as a call of unknown effect.
 //@ func (Tuple).ReadFrom(t; r) (n, err)
 //@   trusted
+
+// Compression enabled, packet below the threshold:  leb(1+len(id)+len(data))  00  leb(id)  data.
+// Decided: total length, the three header fields and their positions. The clause 'the data bytes follow
+// unchanged' did not discharge within the limit (copy chain through the pooled buffer) and is not claimed.
+// (The compressed branch - zlib writer, in-place patch of the length through Buffer.Bytes - is
+// excluded by the precondition and not verified.)
+//@ func (*Packet).packWithCompression(p; w, threshold) (err)
+//@   let wk = sink(w)
+//@   let l0 = old(Wlen(wk))
+//@   let il = leb32_len(uint32(p.ID))
+//@   let L = 1 + il + len(p.Data)
+//@   let hl = leb32_len(uint32(L))
+//@   requires len(p.Data) <= 2097152 && len(p.Data) < threshold
+//@   ensures all(k, 0, l0, Wout(wk, k) == old(Wout(wk, k)))                         [@frame]
+//@   ensures err == nil ==> Wlen(wk) == l0 + hl + L                                  [@layout @count]
+//@   ensures err == nil ==> all(q, 0, 5, q < hl ==> Wout(wk, l0+q) == leb32_byte(uint32(L), q))          [@layout]
+//@   ensures err == nil ==> Wout(wk, l0+hl) == 0                                     [@layout]
+//@   ensures err == nil ==> all(q, 0, 5, q < il ==> Wout(wk, l0+hl+1+q) == leb32_byte(uint32(p.ID), q))   [@layout]
+//@   ensures Wfail(wk) ==> err != nil                                                [@errprop]
+//@   ensures !Wfail(wk) ==> err == nil                                               [@errprop]
+//@   modifies sink(w)                                                                [@frame]
